@@ -1082,7 +1082,8 @@ class FuncGen:
         raise Unsupported('value kind ' + k)
 
     def cg_ref_func(self, name):
-        pass
+        # a function whose address is taken is a possible (indirect) callee: keep it in the job's closure
+        self.cg.called.setdefault(self.f.name, set()).add(name)
 
     def bits(self, t):
         t = self.rt(t)
